@@ -840,8 +840,9 @@ impl Mp4TrackWriter {
         if self.trak.mdia.mdhd.duration > (u32::MAX as u64) {
             self.trak.mdia.mdhd.version = 1
         }
-        self.trak.tkhd.duration +=
-            dur as u64 * movie_timescale as u64 / self.trak.mdia.mdhd.timescale as u64;
+        self.trak.tkhd.duration = self.trak.tkhd.duration.saturating_add(
+            dur as u64 * movie_timescale as u64 / self.trak.mdia.mdhd.timescale as u64,
+        );
         if self.trak.tkhd.duration > (u32::MAX as u64) {
             self.trak.tkhd.version = 1
         }
